@@ -166,10 +166,14 @@ func writeError(w *W, v int, e *ErrorBody) error {
 func writeColumns(w *W, global bool, cols []ColSpec) error {
 	if global {
 		if len(cols) == 0 {
-			return errors.New("global table spec requested but there is no column to take it from")
+			// no column to take the spec from: a fixed one (the flag may be set on metadata
+			// without columns; the keyspace and table are written all the same)
+			w.String("ks")
+			w.String("t")
+		} else {
+			w.String(cols[0].Keyspace)
+			w.String(cols[0].Table)
 		}
-		w.String(cols[0].Keyspace)
-		w.String(cols[0].Table)
 	}
 	for _, c := range cols {
 		if !global {
